@@ -92,6 +92,11 @@ impl Proc {
 
 fn crash_violation(panic: &Option<PanicInfo>) -> Violation {
     match panic {
+        Some(p) if p.msg.starts_with("livelock:") => Violation::new(
+            "livelock",
+            "poll-budget",
+            format!("the simulation never became idle: {}", p.msg),
+        ),
         Some(p) => {
             let oracle = if is_harness_file(&p.file) {
                 "harness-panic"
